@@ -384,6 +384,8 @@ def c17(run, ck):
 
 def c14(run, ck):
     eval_stage(run, ck, "conv", 300, 8000)
+    # probes of a recorded finding: braces inside a literal nested in an embedded expression
+    eval_stage(run, ck, "fstrbrace", 0, 0, parts=1)
     return dict(rule="every conversion function x the numeric grid, the non-numeric pool, 60 numeric / boolean / garbage spellings and valid / invalid UTF-8 byte strings (bound and literal); type(T(x)) == T; round-trip laws on random values "
                      "(the observed string(d) is re-read by the specification's decimal parser and must denote d exactly); f-strings against the concatenation of their literal parts and string(e), both by the specification and as an equation evaluated by the implementation",
                 assumptions=["string(double) is checked by the law double(string(d)) == d and by re-parsing, not by a unique expected spelling"])
